@@ -98,6 +98,8 @@ def run(pid, tier_, replay=None):
         scenarios.append(bp.random_scenario(rng, "seeded/%d/%d" % (seed, i), prof))
         if pid == "C18" and i % 2:
             bp.add_spans(scenarios[-1], rng)
+        if (pid == "C18" and i % 3 == 0) or (pid == "C06" and i % 5 == 0):
+            bp.add_deadlines(scenarios[-1], rng)
     if pid == "C10":
         scenarios.extend(bp.race_scenarios(rng, 450 if quick else 3000, seed))
     if pid == "C11":
@@ -114,6 +116,8 @@ def run(pid, tier_, replay=None):
             scenarios.append(bp.behaviour_to_scenario(b, cst, rng, "tlc/%d/%d/%d" % (seed, k, j)))
             if pid == "C18" and j % 2:
                 bp.add_spans(scenarios[-1], rng)
+            if pid == "C18" and j % 4 == 0:
+                bp.add_deadlines(scenarios[-1], rng)
     binp = binp_f.result()
 
     # 3. run the real processor; part of the scenarios with the channel capacity TLC explored (Q=1,2)
